@@ -321,6 +321,29 @@ func compareSets(c *vk.Ctx, p *sem.Prepared, rc *ref.Case, unevaluable bool, api
 		if f == "?" {
 			f = ""
 		}
+		if f == "" && api == "SubjectSearch" {
+			// ListUsers' exclusion bookkeeping (listed under C06) makes the answer depend on message order: two
+			// calls can differ. Attributed when each side is the reference answer or exactly what the
+			// executable model of that bookkeeping predicts (or the model is order-dependent here).
+			exp := sem.RefListUsers(rc, a, b, x, "")
+			wantLU := append([]string{}, exp.Concrete...)
+			if exp.Wildcard {
+				wantLU = append(wantLU, x+":*")
+			}
+			sort.Strings(wantLU)
+			all := !exp.AnyE
+			for _, side := range [][]string{g, n} {
+				if strings.Join(side, ",") == strings.Join(wantLU, ",") {
+					continue
+				}
+				if ff, _ := sem.ClassifyListUsersByModel("C32", p, rc, a, b, x, "", side, false); ff == "" {
+					all = false
+				}
+			}
+			if all {
+				f = "C32-" + sem.FindingListUsersExclusion
+			}
+		}
 		c.Violation(f, "search-diff|"+api, fmt.Sprintf("%s(%s, %s, %s) = %v but the native call = %v", api, a, b, x, g, n), wit(p, sem.Request{Object: a, Relation: b, User: x}, strings.Join(n, ","), strings.Join(g, ",")))
 	}
 }
